@@ -180,6 +180,15 @@ Tab = make_type('Tab', cache='default', max_parallel=None)
 TJ = make_type('TJ', cache=JsonCache(), max_parallel=None)
 TPost = make_type('TPost', cache='default', max_parallel=None, post_init=True)
 TCtx = make_type('TCtx', cache='default', max_parallel=None, filter_context=_filter_first)
+SCHED_TYPES += [Ta, Tab, TJ]
+
+
+def _run_big(self):
+    return ('R', 2, bytes(200_000), bytes(200_000))
+
+
+TaBig = labtech.task(type('TaBig', (), {'__annotations__': {'label': int}, 'run': _run_big,
+                                        '__module__': __name__, '__qualname__': 'TaBig'}))          # indices 8, 9, 10: prefix-related names and a second cache format
 
 
 # ---- value-grammar universe (C07, C09, C15, C20): task types whose fields take arbitrary parameter trees
